@@ -126,7 +126,21 @@ var axisDirs2 = []kit.V3{{1, 0, 0}, {-1, 0, 0}, {0, 1, 0}, {0, -1, 0}}
 func init() {
 	reg(&family{name: "prim2", dim: 2, group: "primitives", leaf: true,
 		gen: func(g *G, depth int, lab string) *node {
-			return &node{Op: "prim2", S2: []gen.Shape2{gen.Shape2Gen(g.t, gen.AllKinds2, 0.8, g.aspect, lab+".prim")}}
+			s := gen.Shape2Gen(g.t, gen.AllKinds2, 0.8, g.aspect, lab+".prim")
+			if s.Kind == "triangle" && rapid.IntRange(0, 3).Draw(g.t, lab+".sliver") == 0 {
+				// the extreme end of "extreme aspect ratios": a triangle whose third corner lies on the opposite side
+				// (to within 0, 1e-15, 1e-13 or 1e-10 of its length), or repeats a corner.  Such a triangle still
+				// reports a box, and nothing outside that box may be contained.
+				u := gen.F(g.t, 0.05, 0.95, lab+".sliver.u")
+				ab := s.B.Sub(s.A)
+				nrm := kit.V2{-ab[1], ab[0]}
+				eps := rapid.SampledFrom([]float64{0, 0, 1e-15, 1e-13, 1e-10}).Draw(g.t, lab+".sliver.eps")
+				s.C = s.A.Add(ab.Scale(u)).Add(nrm.Scale(eps))
+				if rapid.IntRange(0, 4).Draw(g.t, lab+".sliver.repeat") == 0 {
+					s.C = s.A
+				}
+			}
+			return &node{Op: "prim2", S2: []gen.Shape2{s}}
 		},
 		build: func(b *built) {
 			s := b.n.S2[0]
